@@ -1,0 +1,27 @@
+//go:build !verif
+// +build !verif
+
+package leveldb
+
+// Stubs of the helpers used by the write-path hook lines; with the verif tag off they are
+// constant functions that the compiler inlines away together with the empty verifEvent.
+
+const (
+	VerifEvSelLock, VerifEvSelHanded, VerifEvSelMerged, VerifEvSelPerr, VerifEvSelClosed = 0, 0, 0, 0, 0
+
+	VerifEvFlushOk, VerifEvFlushFail, VerifEvMergeRecv, VerifEvMergeTrue, VerifEvMergeOverflow = 0, 0, 0, 0, 0
+	VerifEvJournalOk, VerifEvJournalFail, VerifEvApplied, VerifEvPublish                       = 0, 0, 0, 0
+	VerifEvRotateOk, VerifEvRotateFail                                                         = 0, 0
+
+	VerifEvUnlock, VerifEvAckSend, VerifEvAckSent, VerifEvHandover, VerifEvHandoverDone, VerifEvRelease = 0, 0, 0, 0, 0, 0
+
+	VerifEvCRLock, VerifEvCRUnlock, VerifEvROLock, VerifEvROSent, VerifEvTxnLock, VerifEvTxnUnlock = 0, 0, 0, 0, 0, 0
+
+	VerifYpMergeRecv, VerifYpUnlock, VerifYpLocked, VerifYpJournal = 0, 0, 0, 0
+)
+
+func verifErrClass(err error) uint64 { return 0 }
+
+func verifWID(b *Batch, key []byte) uint64 { return 0 }
+
+func verifB(b bool) uint64 { return 0 }
